@@ -260,6 +260,7 @@ pub fn params_for(rng: &mut Rng, thorough: bool, i: usize) -> TxwParams {
         hc_stall: i % 4 == 1,
         cache: if i % 5 == 3 { 3 } else { 0 },
         same_app: i % 3 == 0,
+        prewarm_rows: if i % 5 == 2 { [3u64, 30, 120][(i / 5) % 3] } else { 0 },
     }
 }
 
